@@ -38,7 +38,8 @@ PLANS["C15"] = {
     "assumptions": ["hook H4 (verif_waste) reports the real consumed prefix and container length",
                     "exhaustive only up to the stated sequence length; random beyond"],
     "required_features": ["c15.slides_observed", "c15.smallvec_inline_to_heap", "c15.steps_with_nonzero_prefix"],
-    "quick": [R("deque-c15", "dbg", sweep_len=8, cases=200000)],
+    "quick": [R("deque-c15", "dbg", sweep_len=8, cases=200000),
+              R("deque-c15", "rel", sweep_len=7, cases=400000)],
     "thorough": [R("deque-c15", "dbg", sweep_len=9, cases=4000000),
                  R("deque-c15", "rel", sweep=0, sweep_len=9, cases=40000000),
                  R("deque-c15", "miri", sweep=0, sweep_len=9, cases=256, timeout=3000)],
@@ -57,7 +58,8 @@ PLANS["C16"] = {
     "assumptions": ["keys are strictly increasing in generated pushes (whole-item convention: erasing never reorders distinct keys)",
                     "exhaustive only up to the stated sequence length and key universe; random beyond"],
     "required_features": ["c16.middle_removals", "c16.pops", "c16.bad_push_panics_observed", "c16.successful_finds"],
-    "quick": [R("deque-c16", "dbg", sweep_len=7, universe=5, cases=200000)],
+    "quick": [R("deque-c16", "dbg", sweep_len=7, universe=5, cases=200000),
+              R("deque-c16", "rel", sweep_len=6, universe=5, cases=400000)],
     "thorough": [R("deque-c16", "dbg", sweep_len=8, universe=5, cases=400000),
                  R("deque-c16", "rel", sweep=0, cases=20000000),
                  R("deque-c16", "miri", sweep=0, cases=256, timeout=3000)],
@@ -184,7 +186,8 @@ PLANS["C03"] = {
     "level": "exploration",
     "technique": "shadow-pipe reference monitor evaluated on every live iovec after every operation of random multi-iovec histories (dbg incl. crate rep-checks; rel volume, ASan and Miri in the thorough tier)",
     "rule": IOVEC_RULE, "assumptions": IOVEC_ASSUME, "required_features": IOVEC_REQ,
-    "quick": [R("iovec", "dbg", cases=300000, focus="C03")],
+    "quick": [R("iovec", "dbg", cases=300000, focus="C03"),
+              R("iovec", "rel", cases=300000, focus="C03")],
     "thorough": [R("iovec", "dbg", cases=3000000, focus="C03"),
                  R("iovec", "rel", cases=8000000, focus="C03"),
                  R("iovec", "asan", cases=200000, focus="C03"),
@@ -194,7 +197,8 @@ PLANS["C04"] = {
     "level": "exploration",
     "technique": "shadow-pipe monitor with placeholder marks: observed bytes never reach the earliest pending placeholder, accessor Ok/Err status == (no placeholder pending), placeholder-heavy random histories with out-of-order fills",
     "rule": IOVEC_RULE, "assumptions": IOVEC_ASSUME, "required_features": IOVEC_REQ,
-    "quick": [R("iovec", "dbg", cases=300000, focus="C04")],
+    "quick": [R("iovec", "dbg", cases=300000, focus="C04"),
+              R("iovec", "rel", cases=300000, focus="C04")],
     "thorough": [R("iovec", "dbg", cases=3000000, focus="C04"),
                  R("iovec", "rel", cases=8000000, focus="C04"),
                  R("iovec", "miri", cases=96, focus="C04", timeout=3000, miriflags="-Zmiri-disable-isolation -Zmiri-disable-stacked-borrows")],
@@ -203,7 +207,8 @@ PLANS["C20"] = {
     "level": "exploration",
     "technique": "one shadow per live iovec, all compared after every operation on any of them (interference shows on the untouched side); clone/take-heavy histories with arena swaps and either side dropped first",
     "rule": IOVEC_RULE, "assumptions": IOVEC_ASSUME, "required_features": IOVEC_REQ,
-    "quick": [R("iovec", "dbg", cases=300000, focus="C20")],
+    "quick": [R("iovec", "dbg", cases=300000, focus="C20"),
+              R("iovec", "rel", cases=300000, focus="C20")],
     "thorough": [R("iovec", "dbg", cases=3000000, focus="C20"),
                  R("iovec", "rel", cases=8000000, focus="C20"),
                  R("iovec", "asan", cases=200000, focus="C20"),
